@@ -22,6 +22,7 @@
 -/
 import CprocVerif.Model.Lower
 import CprocVerif.Model.CSem2
+import CprocVerif.Model.Tree
 
 namespace CprocVerif.Lower2
 open CprocVerif.Qbe CprocVerif.CSem CprocVerif.CSem2 CprocVerif.CInt CprocVerif.Lower
@@ -97,6 +98,10 @@ structure SOut where
   items : List Item
   allocs : List Item
   ctx : SCtx
+  /-- `case` labels registered with the enclosing `switch` (`switchcase`): constant and block label -/
+  cases : List (Nat × String)
+  /-- `s->switchcases->defaultlabel` if the statement set it -/
+  dflt : Option String
   deriving Inhabited
 
 /-- An expression lowered between statements. -/
@@ -144,21 +149,49 @@ def lowerJnz (cs : Bool) (c : SCtx) (t : CSem.Ty) (v : Val) : EOut :=
   let o := jnzArg cs (funcopen c).2.ctx t v
   ⟨(funcopen c).1 ++ o.items, o.val, (funcopen c).2.upd o.ctx⟩
 
+/-- `switchcase`: the tree of the converted `case` constants, in the order of the labels. -/
+def switchTree (t : CSem.Ty) (cases : List (Nat × String)) : Tree.T :=
+  (cases.map fun c => Tree.caseKey t.size (t.signed true) c.1).foldl Tree.insert .nil
+
+/-- `c->body` of the tree node with key `k`. -/
+def caseLabel (t : CSem.Ty) (cases : List (Nat × String)) (dl : String) (k : Nat) : String :=
+  match cases.find? fun c => Tree.caseKey t.size (t.signed true) c.1 == k with
+  | some c => c.2
+  | none => dl
+
+/-- `casesearch(f, class, v, c, defaultlabel)`: the comparison ladder for the tree `c`; `w`: class `w`.
+    Every leaf ends with `funcjmp(defaultlabel)`, which stays pending until the next `funclabel`. -/
+def ladder (w : Bool) (v : Val) (lab : Nat → String) (dl : String) : Tree.T → Ctx → List Item × Ctx
+  | .nil, c => ([], c)
+  | .node k _ l r, c =>
+    let ne := lblName "switch_ne" (c.blockid + 1)
+    let lt := lblName "switch_lt" (c.blockid + 2)
+    let gt := lblName "switch_gt" (c.blockid + 3)
+    let L := ladder w v lab dl l ⟨c.lastid + 2, c.blockid + 3, lt⟩
+    let R := ladder w v lab dl r ⟨L.2.lastid, L.2.blockid, gt⟩
+    ([.ins (.op (some (tmpName (c.lastid + 1), .w)) (if w then .cmpw .eq else .cmpl .eq)
+          [v, .int (UInt64.ofNat k)]),
+      .lbl (some (.jnz (.tmp (tmpName (c.lastid + 1))) (lab k) ne)) ne [],
+      .ins (.op (some (tmpName (c.lastid + 2), .w)) (if w then .cmpw .ult else .cmpl .ult)
+          [v, .int (UInt64.ofNat k)]),
+      .lbl (some (.jnz (.tmp (tmpName (c.lastid + 2))) lt gt)) lt []] ++ L.1 ++
+      [.lbl (some (.jmp dl)) gt []] ++ R.1, R.2)
+
 /-- `stmt(f, s)`; `brk`, `cont` = `s->breaklabel`, `s->continuelabel`. -/
 def funcstmt (cs : Bool) : (brk cont : String) → Stmt → SCtx → SOut
-  | _, _, .skip, c => ⟨[], [], c⟩
+  | _, _, .skip, c => ⟨[], [], c, [], none⟩
   | _, _, .decl _ t init, c =>
     -- decl.c: the initialiser is parsed, then `funcinit`: `funcalloc`, then `funcexpr`, `funcstore`
     let c1 : SCtx := ⟨c.lastid + 1, c.blockid, c.cur, c.jump, c.slots ++ [c.lastid + 1]⟩
     match init with
-    | none => ⟨[], [allocIns t (c.lastid + 1)], c1⟩
+    | none => ⟨[], [allocIns t (c.lastid + 1)], c1, [], none⟩
     | some e =>
       let oe := lowerE cs c1 e
-      ⟨oe.items ++ [storeIns t oe.val (c.lastid + 1)], [allocIns t (c.lastid + 1)], oe.ctx⟩
+      ⟨oe.items ++ [storeIns t oe.val (c.lastid + 1)], [allocIns t (c.lastid + 1)], oe.ctx, [], none⟩
   | _, _, .assign i t e, c =>
     -- EXPRASSIGN: r = funcexpr(r); funclval(l) emits nothing for an identifier; funcstore
     let oe := lowerE cs c e
-    ⟨oe.items ++ [storeIns t oe.val (c.slots.getD i 0)], [], oe.ctx⟩
+    ⟨oe.items ++ [storeIns t oe.val (c.slots.getD i 0)], [], oe.ctx, [], none⟩
   | _, _, .incdec i t inc, c =>
     -- EXPRINCDEC: funcload; add/sub 1 at the class of the type; (convert for _Bool); funcstore
     let c0 := (funcopen c).2
@@ -166,17 +199,20 @@ def funcstmt (cs : Bool) : (brk cont : String) → Stmt → SCtx → SOut
     let oa := funcinst ol.ctx (if inc then .add else .sub) (cls t) [ol.val, .int 1]
     let ov := if t = .bool then convert cs oa.ctx .bool .int oa.val else ⟨[], oa.val, oa.ctx⟩
     ⟨(funcopen c).1 ++ ol.items ++ oa.items ++ ov.items ++ [storeIns t ov.val (c.slots.getD i 0)], [],
-      c0.upd ov.ctx⟩
+      c0.upd ov.ctx, [], none⟩
   | _, _, .expr e, c =>
     let oe := lowerE cs c e
-    ⟨oe.items, [], oe.ctx⟩
+    ⟨oe.items, [], oe.ctx, [], none⟩
   | _, _, .ret e, c =>
     let oe := lowerE cs c e
-    ⟨oe.items, [], oe.ctx.setJump (.ret (some oe.val))⟩
+    ⟨oe.items, [], oe.ctx.setJump (.ret (some oe.val)), [], none⟩
   | brk, cont, .seq a b, c =>
     let oa := funcstmt cs brk cont a c
     let ob := funcstmt cs brk cont b oa.ctx
-    ⟨oa.items ++ ob.items, oa.allocs ++ ob.allocs, ob.ctx⟩
+    ⟨oa.items ++ ob.items, oa.allocs ++ ob.allocs, ob.ctx, oa.cases ++ ob.cases,
+      match oa.dflt with
+      | some d => some d
+      | none => ob.dflt⟩
   | brk, cont, .ite e a, c =>
     let oe := lowerE cs c e
     let ltrue := lblName "if_true" (oe.ctx.blockid + 1)
@@ -185,7 +221,7 @@ def funcstmt (cs : Bool) : (brk cont : String) → Stmt → SCtx → SOut
     let oa := funcstmt cs brk cont a (oj.ctx.atLabel ltrue)
     ⟨oe.items ++ oj.items ++ [.lbl (some (.jnz oj.val ltrue lfalse)) ltrue []] ++ oa.items ++
        [labelItem oa.ctx lfalse],
-     oa.allocs, oa.ctx.atLabel lfalse⟩
+     oa.allocs, oa.ctx.atLabel lfalse, [], none⟩
   | brk, cont, .itee e a b, c =>
     let oe := lowerE cs c e
     let ltrue := lblName "if_true" (oe.ctx.blockid + 1)
@@ -197,7 +233,7 @@ def funcstmt (cs : Bool) : (brk cont : String) → Stmt → SCtx → SOut
     let ob := funcstmt cs brk cont b (c4.atLabel lfalse)
     ⟨oe.items ++ oj.items ++ [.lbl (some (.jnz oj.val ltrue lfalse)) ltrue []] ++ oa.items ++
        [labelItem c4 lfalse] ++ ob.items ++ [labelItem ob.ctx ljoin],
-     oa.allocs ++ ob.allocs, ob.ctx.atLabel ljoin⟩
+     oa.allocs ++ ob.allocs, ob.ctx.atLabel ljoin, [], none⟩
   | _, _, .while_ e b, c =>
     let lcond := lblName "while_cond" (c.blockid + 1)
     let lbody := lblName "while_body" (c.blockid + 2)
@@ -207,7 +243,7 @@ def funcstmt (cs : Bool) : (brk cont : String) → Stmt → SCtx → SOut
     let ob := funcstmt cs ljoin lcond b (oj.ctx.atLabel lbody)
     ⟨[labelItem c lcond] ++ oe.items ++ oj.items ++ [.lbl (some (.jnz oj.val lbody ljoin)) lbody []] ++
        ob.items ++ [labelItem (ob.ctx.setJump (.jmp lcond)) ljoin],
-     ob.allocs, ob.ctx.atLabel ljoin⟩
+     ob.allocs, ob.ctx.atLabel ljoin, [], none⟩
   | _, _, .dowhile b e, c =>
     let lbody := lblName "do_body" (c.blockid + 1)
     let lcond := lblName "do_cond" (c.blockid + 2)
@@ -217,7 +253,7 @@ def funcstmt (cs : Bool) : (brk cont : String) → Stmt → SCtx → SOut
     let oj := lowerJnz cs oe.ctx e.ty oe.val
     ⟨[labelItem c lbody] ++ ob.items ++ [labelItem ob.ctx lcond] ++ oe.items ++ oj.items ++
        [.lbl (some (.jnz oj.val lbody ljoin)) ljoin []],
-     ob.allocs, oj.ctx.atLabel ljoin⟩
+     ob.allocs, oj.ctx.atLabel ljoin, [], none⟩
   | brk, cont, .for_ e step b, c =>
     let lcond := lblName "for_cond" (c.blockid + 1)
     let lbody := lblName "for_body" (c.blockid + 2)
@@ -235,9 +271,31 @@ def funcstmt (cs : Bool) : (brk cont : String) → Stmt → SCtx → SOut
     let os := funcstmt cs brk cont step (ob.ctx.atLabel lcont)
     ⟨[labelItem c lcond] ++ hd.1 ++ ob.items ++ [labelItem ob.ctx lcont] ++ os.items ++
        [labelItem (os.ctx.setJump (.jmp lcond)) ljoin],
-     ob.allocs ++ os.allocs, os.ctx.atLabel ljoin⟩
-  | brk, _, .break_, c => ⟨[], [], c.setJump (.jmp brk)⟩
-  | _, cont, .continue_, c => ⟨[], [], c.setJump (.jmp cont)⟩
+     ob.allocs ++ os.allocs, os.ctx.atLabel ljoin, [], none⟩
+  | brk, _, .break_, c => ⟨[], [], c.setJump (.jmp brk), [], none⟩
+  | _, cont, .continue_, c => ⟨[], [], c.setJump (.jmp cont), [], none⟩
+  | _, _, .case_ u, c =>
+    -- label(): b = mkblock("switch_case"); funclabel(f, b); switchcase(s->switchcases, i, b)
+    ⟨[labelItem c (lblName "switch_case" (c.blockid + 1))], [],
+      (c.addBlocks 1).atLabel (lblName "switch_case" (c.blockid + 1)),
+      [(u, lblName "switch_case" (c.blockid + 1))], none⟩
+  | _, _, .default_, c =>
+    ⟨[labelItem c (lblName "switch_default" (c.blockid + 1))], [],
+      (c.addBlocks 1).atLabel (lblName "switch_default" (c.blockid + 1)),
+      [], some (lblName "switch_default" (c.blockid + 1))⟩
+  | _, cont, .switch_ e b, c =>
+    -- b[0] = mkblock("switch_cond"); b[1] = mkblock("switch_join"); v = funcexpr(f, e); funcjmp(f, b[0]);
+    -- body with breaklabel = b[1]; funcjmp(f, b[1]); funclabel(f, b[0]); funcswitch; funclabel(f, b[1])
+    let lcond := lblName "switch_cond" (c.blockid + 1)
+    let ljoin := lblName "switch_join" (c.blockid + 2)
+    let oe := lowerE cs (c.addBlocks 2) e
+    let ob := funcstmt cs ljoin cont b (oe.ctx.setJump (.jmp lcond))
+    let c2 := ob.ctx.setJump (.jmp ljoin)
+    let dl := ob.dflt.getD ljoin
+    let tree := switchTree e.ty ob.cases
+    let lad := ladder (decide (e.ty.size ≤ 4)) oe.val (caseLabel e.ty ob.cases dl) dl tree (c2.atLabel lcond).ctx
+    ⟨oe.items ++ ob.items ++ [labelItem c2 lcond] ++ lad.1 ++ [.lbl (some (.jmp dl)) ljoin []],
+     ob.allocs, ((c2.atLabel lcond).upd lad.2).atLabel ljoin, [], none⟩
 
 /-- Slots of the parameters after `mkfunc`: parameter `i` is in `%.(2i+2)`. -/
 def paramSlots (n : Nat) : List Nat := (List.range n).map fun i => 2 * i + 2
